@@ -9,13 +9,13 @@ from build import VERIF, WORK
 class Job:
     def __init__(self, name, props, group, harness, config='baseline', defines=(), unwind=8, unwindset=(), timeout=240,
                  mem_gb=6, tier='quick', temp_mode=2, roots=r'^w_', threads=1, desc='', bounds='', finding=None,
-                 function='harness', extra=(), witness=True, solver=None):
+                 function='harness', extra=(), witness=True, solver=None, sweep=True):
         self.name = name; self.props = props if isinstance(props, (list, tuple)) else [props]
         self.group = group; self.harness = harness; self.config = config; self.defines = list(defines)
         self.unwind = unwind; self.unwindset = list(unwindset); self.timeout = timeout; self.mem_gb = mem_gb
         self.tier = tier; self.temp_mode = temp_mode; self.roots = roots; self.threads = threads
         self.desc = desc; self.bounds = bounds; self.finding = finding; self.function = function
-        self.extra = list(extra); self.witness = witness; self.solver = solver
+        self.extra = list(extra); self.witness = witness; self.solver = solver; self.sweep = sweep
 
     def cfg_defines(self):
         c = build.CONFIGS[self.config]
@@ -23,7 +23,7 @@ class Job:
                 'CFG_LEAK=%d' % c['LEAK'], 'CFG_PTR=%d' % c['PTR'], 'CFG_DOUBLE=%d' % c['DOUBLE']]
 
     def all_defines(self):
-        return self.cfg_defines() + self.defines + (['WITNESS'] if self.witness else [])
+        return self.cfg_defines() + self.defines + (['WITNESS'] if self.witness else []) + (['IR_MEMSET_SWEEP'] if self.sweep else [])
 
 def verif_hash():
     return build.tree_hash([os.path.join(VERIF, d) for d in ('tools', 'rt', 'shim', 'harness')])
@@ -45,6 +45,14 @@ def get_group(job):
 def job_key(job, rh, vh):
     return build.sha(rh, vh, job.name, job.group, job.config, job.harness, ' '.join(job.all_defines()), str(job.unwind),
                      ','.join(job.unwindset), str(job.temp_mode), ' '.join(job.extra), str(job.solver))
+
+def sweep_unwind(job, g):
+    if not job.sweep: return []
+    heap = 256
+    for x in job.defines:
+        if x.startswith('HEAP_SIZE='): heap = int(x.split('=')[1])
+    words = max(heap, 192, g['meta'].get('glb_size', 0) + 16) // 8 + 2
+    return ['memset_sweep.0:%d' % words]
 
 def is_witness(desc):
     return desc is not None and desc.startswith('WITNESS')
@@ -70,7 +78,8 @@ def run_job(job, rh, vh, use_cache=True):
     if job.solver == 'cadical': extra += ['--sat-solver', 'cadical']
     elif job.solver == 'kissat': extra += ['--external-sat-solver', 'kissat']
     elif job.solver == 'cvc5': extra += ['--cvc5']     # via tools/bin/cvc5: --solve-bv-as-int=sum (mul/div kernels)
-    r = build.run_cbmc(g, job.harness, defines=job.all_defines(), unwind=job.unwind, unwindset=job.unwindset,
+    uws = list(job.unwindset) + sweep_unwind(job, g)
+    r = build.run_cbmc(g, job.harness, defines=job.all_defines(), unwind=job.unwind, unwindset=uws,
                        timeout=job.timeout, mem_gb=job.mem_gb, function=job.function, extra=extra)
     res.update(cbmc_status=r['status'], solver_wall_s=round(r['time'], 2), n_props=len(r['props']),
                steps=r.get('steps'), vars=r.get('vars'), clauses=r.get('clauses'), cmd=r['cmd'])
@@ -108,8 +117,8 @@ def run_job(job, rh, vh, use_cache=True):
 def replay_failure(job, g, real, extra):
     """re-run with --trace, extract inputs, run natively against the real code"""
     out = {}
-    defs = job.cfg_defines() + job.defines      # no WITNESS: the trace must be for a real obligation
-    r = build.run_cbmc(g, job.harness, defines=defs, unwind=job.unwind, unwindset=job.unwindset, timeout=job.timeout * 2,
+    defs = job.cfg_defines() + job.defines + (['IR_MEMSET_SWEEP'] if job.sweep else [])     # no WITNESS: the trace must be for a real obligation
+    r = build.run_cbmc(g, job.harness, defines=defs, unwind=job.unwind, unwindset=list(job.unwindset) + sweep_unwind(job, g), timeout=job.timeout * 2,
                        mem_gb=job.mem_gb, function=job.function, extra=extra, trace=True)
     fl = [f for f in r.get('failed', []) if f.get('trace')]
     if not fl:
